@@ -6,8 +6,8 @@ for s in 'C0[1-5]*' 'C0[6-9]*' 'C1[0-4]*' 'C1[5-9]*' 'C20*'; do
   n=$(echo "$s" | tr -dc 'C0-9')
   ./selftest.py --seeds-only --only "$s" --base /tmp/st-$n --log /verif/build/selftest-$n.log > /dev/null 2>&1 &
 done
-for b in 'B[1-5]' 'B[6-9]' 'B1[0-4]' 'B1[5-9]' 'B2*' 'F*'; do
-  n=$(echo "$b" | tr -dc 'BF0-9')
+for b in 'B[1-5]' 'B[6-9]' 'B1[0-4]' 'B1[5-9]' 'B2[0-9]' 'F*' 'M*'; do
+  n=$(echo "$b" | tr -dc 'BFM0-9')
   ./selftest.py --benign-only --only-benign "$b" --base /tmp/st-$n --log /verif/build/selftest-benign-$n.log > /dev/null 2>&1 &
 done
 wait
